@@ -186,3 +186,40 @@ func RefAuthentic(e *epb.VMLaunchEndorsement, roots []*x509.Certificate, t time.
 	}
 	return true, ""
 }
+
+// A small fixed chain for doubles of the certificate authority and the signer: checks that replace
+// those components should still hand the code a REAL certificate and REAL signatures, so that an
+// implementation which parses the certificate or verifies its own signature before returning is not
+// pushed outside the domain it is written for.
+var (
+	devOnce              sync.Once
+	devRoot, devSignCert *x509.Certificate
+)
+
+func devChain() {
+	devOnce.Do(func() {
+		nb := time.Date(2020, time.January, 1, 0, 0, 0, 0, time.UTC)
+		devRoot = MakeCert(CertSpec{CN: "verif-dev-root", Serial: 1, NotBefore: nb, NotAfter: nb.AddDate(40, 0, 0), IsCA: true, Key: Key(0)})
+		devSignCert = MakeCert(CertSpec{CN: "verif-dev-signer", Serial: 2, NotBefore: nb, NotAfter: nb.AddDate(30, 0, 0), Key: Key(1), Parent: devRoot, ParentKey: Key(0)})
+	})
+}
+
+// DevSigningCertDER is the DER certificate of the doubles' signing key (Key(1)), issued by DevRoot.
+func DevSigningCertDER() []byte { devChain(); return devSignCert.Raw }
+
+// DevRoot is the doubles' root certificate.
+func DevRoot() *x509.Certificate { devChain(); return devRoot }
+
+// DevBundlePEM is the PEM bundle (root only) the doubles' authority serves.
+func DevBundlePEM() []byte {
+	devChain()
+	return pem.EncodeToMemory(&pem.Block{Type: "CERTIFICATE", Bytes: devRoot.Raw})
+}
+
+// DevSignDigest signs a SHA-256 digest with the doubles' signing key, RSA-PSS, salt length = hash length.
+func DevSignDigest(digest []byte) ([]byte, error) {
+	return rsa.SignPSS(rand.Reader, Key(1), crypto.SHA256, digest, &rsa.PSSOptions{SaltLength: rsa.PSSSaltLengthEqualsHash, Hash: crypto.SHA256})
+}
+
+// DevPublicKeyDER is the PKIX encoding of the doubles' signing key.
+func DevPublicKeyDER() ([]byte, error) { return x509.MarshalPKIXPublicKey(&Key(1).PublicKey) }
